@@ -11,6 +11,7 @@ package c01
 import (
 	"database/sql"
 	"database/sql/driver"
+	"errors"
 	"fmt"
 	"reflect"
 	"strings"
@@ -45,10 +46,24 @@ type UTag struct {
 	Seen      uint32 `gorm:"autoUpdateTime"`
 }
 
+// FTag's after-hooks fail on demand: an operation whose error arises AFTER its main statement was sent.
+type FTag struct {
+	ID int64 `gorm:"primaryKey"`
+	C1 string
+	C2 int64
+}
+
+var errFTag = errors.New("verif: after-hook refuses")
+
+func (t *FTag) AfterCreate(tx *gorm.DB) error { return errFTag }
+func (t *FTag) AfterUpdate(tx *gorm.DB) error { return errFTag }
+func (t *FTag) AfterDelete(tx *gorm.DB) error { return errFTag }
+
 var h19, h19cfg *vdb.Handle
 
 const seed19 = `
-DELETE FROM tags; DELETE FROM others; DELETE FROM s_tags; DELETE FROM u_tags;
+DELETE FROM tags; DELETE FROM others; DELETE FROM s_tags; DELETE FROM u_tags; DELETE FROM f_tags;
+INSERT INTO f_tags(id,c1,c2) VALUES (1,'a',1),(2,'b',2);
 INSERT INTO u_tags(id,c1,c2,created_at,updated_at,stamp,seen) VALUES (1,'a',1,5,5000,5000000000,5),(2,'b',2,6,6000,6000000000,6);
 INSERT INTO tags(id,c1,c2,c3,c8) VALUES (3,'x',1,1.5,0),(7,'y',2,2.5,1),(9,'z',3,3.5,0);
 INSERT INTO others(tag_id,c1,c2) VALUES (3,'o',1);
@@ -73,7 +88,7 @@ func open19(dry bool) *vdb.Handle {
 	if err != nil {
 		panic(err)
 	}
-	if err := h.DB.AutoMigrate(&Tag{}, &Other{}, &STag{}, &UTag{}); err != nil {
+	if err := h.DB.AutoMigrate(&Tag{}, &Other{}, &STag{}, &UTag{}, &FTag{}); err != nil {
 		panic(err)
 	}
 	if _, err := h.SQL.Exec(seed19); err != nil {
@@ -185,6 +200,34 @@ func compare19(c *core.Ctx, mk func() op19, mkSplit splitOp, what string) {
 	}
 	if evs := h19.Rec.Since(markt); len(evs) > 0 {
 		add("ToSQL made %d driver calls, first: %s", len(evs), evs[0].String())
+	}
+	// (c'') ToSQL on handles that already run dry (session flag, configuration flag): no driver call either
+	{
+		h19.Clock.Reset()
+		markd := h19.Rec.Mark()
+		var sqlD string
+		h19.DB.Session(&gorm.Session{DryRun: true}).ToSQL(func(tx *gorm.DB) *gorm.DB {
+			o, _ := mk()(tx)
+			sqlD = o.sql
+			return o.res
+		})
+		if evs := h19.Rec.Since(markd); len(evs) > 0 {
+			add("ToSQL on a Session{DryRun} handle made %d driver calls, first: %s", len(evs), evs[0].String())
+		}
+		h19cfg.Clock.Reset()
+		markd = h19cfg.Rec.Mark()
+		var sqlC string
+		h19cfg.DB.ToSQL(func(tx *gorm.DB) *gorm.DB {
+			o, _ := mk()(tx)
+			sqlC = o.sql
+			return o.res
+		})
+		if evs := h19cfg.Rec.Since(markd); len(evs) > 0 {
+			add("ToSQL on a Config.DryRun handle made %d driver calls, first: %s", len(evs), evs[0].String())
+		}
+		if sqlD != tosqlSQL || sqlC != tosqlSQL {
+			add("ToSQL on a handle that already runs dry exposes a different statement:\n  session-dry: %s\n  config-dry : %s\n  plain      : %s", sqlD, sqlC, tosqlSQL)
+		}
 	}
 	// (d) for real
 	h19.Clock.Reset()
@@ -357,7 +400,8 @@ func run19(c *core.Ctx) {
 	// handle chained from the operation's own handle that is used by two statements (count, then page)
 	{
 		seed := c.R.U64()
-		fin := core.Pick(c.R, []string{"Row", "RawRow", "TableRow", "SubQueryTwice", "SubQueryTwice", "SubQueryTwiceInOne", "FirstOrCreateMissing", "FirstOrCreateMissing", "FirstOrInitMissing"})
+		fin := core.Pick(c.R, []string{"Row", "RawRow", "TableRow", "SubQueryTwice", "SubQueryTwice", "SubQueryTwiceInOne", "FirstOrCreateMissing", "FirstOrCreateMissing", "FirstOrInitMissing",
+			"LateError", "LateError"})
 		mk := func() op19 {
 			return func(db *gorm.DB) (outcome, string) {
 				g := newGen(core.NewRand(seed))
@@ -380,6 +424,33 @@ func run19(c *core.Ctx) {
 						row.Scan(&v)
 					}
 					return outcome{sql: tx.Statement.SQL.String(), vars: tx.Statement.Vars, err: tx.Error, res: tx}, "db." + fin + "()"
+				case "LateError":
+					// the operation fails after its main statement: a refusing after-hook, a Preload of a
+					// relation the model does not have. The real run has sent the statement by then, and a dry
+					// run exposes the same statement next to the same error.
+					var res *gorm.DB
+					var d string
+					switch seed % 5 {
+					case 0:
+						res = db.Create(&FTag{C1: l2.val.(string), C2: 3})
+						d = "db.Create(&FTag{...}) whose AfterCreate returns an error"
+					case 1:
+						res = db.Create(&[]FTag{{C1: l2.val.(string)}, {C1: "w", C2: 4}})
+						d = "db.Create(&[]FTag{...}) whose AfterCreate returns an error"
+					case 2:
+						res = db.Model(&FTag{ID: 1}).Update("c1", l2.val)
+						d = "db.Model(&FTag{ID:1}).Update(c1, ?) whose AfterUpdate returns an error"
+					case 3:
+						res = db.Delete(&FTag{ID: 2})
+						d = "db.Delete(&FTag{ID:2}) whose AfterDelete returns an error"
+					default:
+						res = db.Preload("NoSuchRelation").Where("c1 <> ?", l2.val).Find(&[]Tag{})
+						d = "db.Preload(\"NoSuchRelation\").Where(c1 <> ?).Find(&[]Tag{})"
+					}
+					if res.Error == nil {
+						panic("LateError: the operation did not fail")
+					}
+					return outcome{sql: res.Statement.SQL.String(), vars: res.Statement.Vars, err: res.Error, res: res}, d
 				case "FirstOrCreateMissing", "FirstOrInitMissing":
 					// compound finishers on the not-found path: for real the lookup finds no row and the
 					// operation's last statement is the one that counts (the INSERT resp. the lookup itself);
